@@ -122,6 +122,12 @@ func (v *Vue) evalFor(ctx VueContext, node *html.Node, expr string, depth int) (
 	err = ctx.stack.ForEach(collectionName, func(index int, value any) error {
 		iterNode := helpers.DeepCloneNode(node)
 		helpers.RemoveAttr(iterNode, "v-for")
+		// A looped element that is the v-else-if / v-else member of a chain has
+		// been chosen by that chain already; its instances are not members of a
+		// chain (left on, the directive would make evaluate drop each of them as
+		// an else without an if).
+		helpers.RemoveAttr(iterNode, "v-else-if")
+		helpers.RemoveAttr(iterNode, "v-else")
 
 		ctx.stack.Push(nil)
 
